@@ -127,8 +127,8 @@ class JointBase(Assembly, abc.ABC):
         self.assemblies[0].chop_radial(**kwargs)
 
     def chop_tangential(self, **kwargs):
-        self.assemblies[0].chop_tangential(**kwargs)
-        self.assemblies[1].chop_tangential(**kwargs)
+        for asm in self.assemblies:
+            asm.chop_tangential(**kwargs)
 
     def set_outer_patch(self, patch_name: str) -> None:
         for asm in self.assemblies:
